@@ -300,6 +300,9 @@ class PDFContentParser(PSStackParser[Union[PSKeyword, PDFStream]]):
                     and c == (bytes((target[i],)))
                 ):
                     i += 1
+                elif c == bytes((target[0],)):
+                    # the byte that broke the match may itself start the marker
+                    i = 1
                 else:
                     i = 0
             else:
